@@ -9,6 +9,7 @@ import (
 	"math"
 	"math/bits"
 	"sort"
+	"strings"
 	"sync"
 	"time"
 
@@ -284,14 +285,54 @@ func opBuilderHist(_ *HState, a Event) Event {
 	var added [][]int
 	var steps []interface{}
 	pp, msg := guard(func() {
-		b := builder.WithKeyPM([16]byte{1, 2, 3}, uint8(gInt(a, "p0")), uint64(gInt64(a, "m0")))
+		// every constructor of the package: explicit key / key derived from a hash (its first 16 bytes) / random key, with
+		// explicit or default (19, 784931) parameters, with or without a size hint
+		mkHash := func(v int) *chainhash.Hash {
+			var h chainhash.Hash
+			for i := range h {
+				h[i] = byte(v + 3*i)
+			}
+			return &h
+		}
 		p, m := gInt(a, "p0"), gInt64(a, "m0")
+		var b *builder.GCSBuilder
+		ctor := gName(a, "ctor")
+		switch ctor {
+		case "KeyPNM":
+			b = builder.WithKeyPNM(key, uint8(p), uint32(gInt(a, "n0")), uint64(m))
+		case "Key":
+			b, p, m = builder.WithKey(key), builder.DefaultP, int64(builder.DefaultM)
+		case "KeyHashPM":
+			b = builder.WithKeyHashPM(mkHash(5), uint8(p), uint64(m))
+			copy(key[:], mkHash(5)[:16])
+		case "KeyHashPNM":
+			b = builder.WithKeyHashPNM(mkHash(6), uint8(p), uint32(gInt(a, "n0")), uint64(m))
+			copy(key[:], mkHash(6)[:16])
+		case "KeyHash":
+			b, p, m = builder.WithKeyHash(mkHash(7)), builder.DefaultP, int64(builder.DefaultM)
+			copy(key[:], mkHash(7)[:16])
+		case "RandomKeyPM":
+			b = builder.WithRandomKeyPM(uint8(p), uint64(m))
+		case "RandomKeyPNM":
+			b = builder.WithRandomKeyPNM(uint8(p), uint32(gInt(a, "n0")), uint64(m))
+		case "RandomKey":
+			b, p, m = builder.WithRandomKey(), builder.DefaultP, int64(builder.DefaultM)
+		default:
+			b = builder.WithKeyPM(key, uint8(p), uint64(m))
+		}
+		if strings.HasPrefix(ctor, "Random") { // the key is the builder's own choice: two builders do not get the same one
+			key, _ = b.Key()
+			k2, _ := builder.WithRandomKey().Key()
+			e["randkeys_differ"] = key != k2 || p > 32 || m > math.MaxUint32
+		}
 		latched := false
 		if p > 32 || m > math.MaxUint32 {
 			latched = true
 		}
+		ctorLatched := latched
 		if latched {
 			p, m = 0, 0
+			key = [16]byte{}
 		}
 		for _, st := range gList(a, "prog") {
 			s := st.(map[string]interface{})
@@ -335,17 +376,35 @@ func opBuilderHist(_ *HState, a Event) Event {
 				if !latched {
 					key = [16]byte{byte(gInt(s, "v"))}
 				}
+			case "AddEntries":
+				var list [][]byte
+				for _, x := range gList(s, "items") {
+					it := anyBytes(x)
+					list = append(list, it)
+					if !latched {
+						added = append(added, ints(it))
+					}
+				}
+				b.AddEntries(list)
+			case "SetKeyFromHash":
+				b.SetKeyFromHash(mkHash(gInt(s, "v")))
+				if !latched {
+					copy(key[:], mkHash(gInt(s, "v"))[:16])
+				}
+			case "Preallocate": // a size hint never changes the result
+				b.Preallocate(uint32(gInt(s, "v")))
 			case "Build": // an intermediate Build (its result is dropped): later setters and entries still count
 				b.Build()
 			}
 			steps = append(steps, rec)
 		}
-		if gInt(a, "p0") > 32 || gInt64(a, "m0") > math.MaxUint32 {
+		if ctorLatched {
 			steps = append([]interface{}{map[string]interface{}{"k": "With", "seterr": true}}, steps...)
 		}
 		e["pzero"], e["mzero"] = p == 0, m == 0
-		_, kerr := b.Key()
+		gotKey, kerr := b.Key()
 		e["keyerr"] = kerr != nil
+		e["keyok"] = kerr != nil || gotKey == key
 		f, err := b.Build()
 		e["builderr"] = err != nil
 		if err == nil {
